@@ -26,7 +26,7 @@ def run(rep):
         if nv == 0: rep.holds('C05.2 tree: Err iff first fault reached is unrecoverable, divergence flagged, draw created before the fault, no site beyond the fault, no panic - maxdepth=%d (%d paths)' % (Dm, len(outs)), time.time() - t0)
     register_draw(rep, mir, L)
     from ..driver import parts
-    parts(rep, [lambda: flow_collector(rep, mir, L)])
+    parts(rep, [lambda: flow_collector(rep, mir, L), lambda: init_state_untransformed(rep, mir, L)])
     init_state(rep, mir, L)
     from ..driver import parts
     from .c07 import init_search
@@ -149,6 +149,45 @@ def register_draw(rep, mir, L):
 
 def _b(v): return z3.BoolVal(v) if isinstance(v, bool) else v
 
+def init_state_untransformed(rep, mir, L):
+    """init_state_untransformed (the start point the adaptation strategies build the initial mass matrix from): Ok iff the density call succeeded and
+    position and gradient are finite; a density error becomes Err(LogpFailure)"""
+    from ..vm import SliceRef
+    A = FPUAlg(); d = 2
+    vm = VM(mir, A, inst={}); env = MathEnv(vm, d, 'fault', L); se = StateEnv(vm, mir); install_misc(vm)
+    fn = mir.method('TransformedHamiltonian', 'Hamiltonian', 'init_state_untransformed')
+    def logp_array(vm, m, c, a):
+        outs = []
+        for kd in ('ok', 'rec', 'unrec'):
+            m2 = m.clone(); m2.log('events', ('logp', kd))
+            if kd == 'ok': env.setvec(m2, a[2], [A.fresh('ugrad_%d' % i) for i in range(d)]); outs.append((m2, 'ret', OK(A.fresh('logp'))))
+            else: outs.append((m2, 'ret', ERR(Struct((kd,), 'LogpErrOracle'))))
+        return outs
+    vm.models = [x for x in vm.models if 'logp_array' not in x[0].pattern]
+    vm.add_model(r'^<M as Math>::logp_array$', logp_array)
+    m = Machine(); m.ghost['events'] = []; math = Ref(m.alloc(Opaque('math')))
+    ham = L.make('TransformedHamiltonian', {'ones': Seq([A.const(1.0)] * d), 'zeros': Seq([A.const(0.0)] * d), 'step_size': A.fresh('eps'), 'momentum_decoherence_length': NONE(),
+                                            'transformation': Opaque('T'), 'kinetic_energy_kind': Enum(0, 'Euclidean', (), 'KineticEnergyKind'), 'pool': Opaque('pool')})
+    hc = m.alloc(ham); pos = [A.fresh('x_%d' % i) for i in range(d)]; pc = m.alloc(Seq(pos))
+    outs = vm.run(fn, [Ref(hc), math, SliceRef(pc, (), 0, d)], m); rep.paths += len(outs); rep.absorb_vm(vm)
+    bad = []; s = z3.Solver(); s.set('timeout', 120000); kinds = set()
+    fin = z3.And(*([A.is_finite(x) for x in pos] + [A.is_finite(A.fresh('ugrad_%d' % i)) for i in range(d)]))
+    for (mm, k, v) in outs:
+        if k != 'ret': bad.append(('panic', str(v)[:100])); continue
+        t = next((e[1] for e in mm.ghost['events'] if e[0] == 'logp'), None); kinds.add((t, v.name))
+        if t in ('rec', 'unrec'):
+            if v.name != 'Err': bad.append(('a density error at the start point is not reported', t))
+            continue
+        s.push(); s.add(*mm.pc); s.add(fin != z3.BoolVal(v.name == 'Ok')); r = s.check()
+        if r != z3.unsat: bad.append(('init_state_untransformed %s a start point although its position and gradient are %s' % (('accepts', 'not all finite') if v.name == 'Ok' else ('rejects', 'finite')), str(s.model())[:300] if r == z3.sat else 'unknown'))
+        s.pop()
+        if v.name == 'Ok':
+            pt = mm.mem[v.f[0].f[0].cell]
+            if L.get('TransformedPoint', pt, 'transform_id') != -1: bad.append(('the whitened coordinates of the start point are not marked stale (transform_id = -1)',))
+    rep.cover('C05.8 init_state_untransformed: Ok and Err reachable', ('ok', 'Ok') in kinds and ('ok', 'Err') in kinds)
+    if bad: rep.violated('C05.8 init_state_untransformed', 'init_state_untransformed', 'init_state_untransformed: %s' % (bad[0],), model={'problems': [str(b)[:300] for b in bad[:5]]})
+    else: rep.holds('C05.8 init_state_untransformed: Ok exactly for a successful density call with finite position and gradient (whitened coordinates marked stale); density errors -> Err (%d paths)' % len(outs))
+
 def flow_collector(rep, mir, L):
     """DrawCollector (what the flow / external adaptation is trained on): a point is collected iff it is not divergent, its energy error is finite
     and not above the limit, and its position and gradient are finite - in orbit mode for every leapfrog end point, otherwise for the draw"""
@@ -227,6 +266,17 @@ def init_state(rep, mir, L):
             s.push(); s.add(*mm.pc); s.add(cond); r = s.check()
             if r != z3.unsat: bad.append(('init_state accepts a start with a non-finite value or zero gradient', str(s.model())[:400] if r == z3.sat else 'unknown'))
             s.pop()
+    # the converse: a start whose four arrays are finite with a non-zero whitened gradient is not rejected (otherwise no chain could start)
+    for (mm, k, v) in outs:
+        if k != 'ret' or v.name != 'Err': continue
+        t = next((e[1] for e in mm.ghost['events'] if e[0] == 'T_init'), None)
+        if t != 'ok': continue
+        names = ['x_%d' % i for i in range(d)] + ['%s_%d' % (nm, i) for nm in ('ugrad', 'tpos', 'tgrad') for i in range(d)]
+        allv = [A.fresh(nm) for nm in names]
+        cond = [A.is_finite(x) for x in allv] + [z3.Not(A.eq(A.fresh('tgrad_%d' % i), A.const(0.0))) for i in range(d)]
+        s.push(); s.add(*mm.pc); s.add(*cond); r = s.check()
+        if r == z3.sat: bad.append(('init_state rejects a start whose position, gradient and whitened coordinates are all finite with a non-zero whitened gradient', str(s.model())[:300]))
+        s.pop()
     rep.cover('C05.6 init_state Ok reachable', ('ok', 'Ok') in kinds); rep.cover('C05.6 init_state BadInitGrad reachable', ('ok', 'Err') in kinds)
     if bad: rep.violated('C05.6 init_state', 'init_state.check', 'init_state: %s' % (bad[0],), model={'problems': [str(b)[:400] for b in bad]})
     else: rep.holds('C05.6 init_state: Ok only for finite position/gradient/transformed coordinates with non-zero transformed gradient; density errors -> Err (%d paths)' % len(outs))
